@@ -4,7 +4,7 @@
    Wal/CrcTab.v, Wal/Pb.v; it is tied to the Go code by the differential run of ./check C16. *)
 Require Import Base.Bytes Wal.Crc32c Wal.CrcTab Wal.Pb Wal.WalModel Wal.WalSpec Wal.SnapModel.
 Require Import Wal.FrameProofs Wal.CrcProofs Wal.PbProofs Wal.WalProofs Wal.WalRefuted Wal.SnapProofs.
-Require Import Wal.TornProofs Wal.RepairProofs Wal.ReadAllProofs Wal.RoundtripProofs Wal.SnapFlipProofs Wal.FlipReadProofs Wal.DurableProofs Wal.FlipClassProofs Wal.FlipCrcProofs Wal.FlipAllProofs.
+Require Import Wal.TornProofs Wal.RepairProofs Wal.ReadAllProofs Wal.RoundtripProofs Wal.SnapFlipProofs Wal.FlipReadProofs Wal.DurableProofs Wal.FlipClassProofs Wal.FlipCrcProofs Wal.FlipAllProofs Wal.TruncProofs.
 Local Open Scope N_scope.
 
 (* ------------------------------------------------------------------ frames *)
@@ -140,6 +140,15 @@ Theorem C16_completed_ok_durable : forall meta ops segsize,
   completed_ok ops (read_all true 0 0 (map file_bytes (w_files segsize (snd (w_run_d meta ops))))) = true.
 Proof. exact completed_ok_durable. Qed.
 Print Assumptions C16_completed_ok_durable.
+
+(* the ops-level oracle of the runner: a read of the directory the writer produced satisfies the
+   specification of the script (spec_read_ok compares metadata, hard state and entry log with
+   spec_run); ./check C16 applies it to every read of a fully synced real directory *)
+Theorem C16_spec_read_ok : forall meta ops segsize,
+  meta_ok meta -> Forall op_ok ops -> segsize mod 8 = 0 ->
+  spec_read_ok meta ops (read_all true 0 0 (map file_bytes (w_files segsize (w_run meta ops)))) = true.
+Proof. exact spec_read_ok_written. Qed.
+Print Assumptions C16_spec_read_ok.
 
 (* a vote granted in an already known term (no entries) is durable when Save returns … *)
 Example C16_vote_only_durable_ex :
@@ -387,6 +396,49 @@ Theorem C16_torn_tail_readall : forall segs rs_synced rs_unsynced (lost : N -> b
     /\ read_all false 0 0 (fs ++ [img]) = result_w false s_m.
 Proof. exact torn_tail_readall. Qed.
 Print Assumptions C16_torn_tail_readall.
+
+(* A crash in the middle of cut() — and, more generally, a tail file that ENDS inside the unsynced
+   records instead of being followed by zero-filled preallocation.  cut() does: Truncate(tail, flushed
+   offset); sync (flush + fdatasync: the records of the current Save are appended past the new
+   end of file); create/fill/sync the next segment under a .tmp name; rename it to <seq+1>-<index>.wal;
+   fsync the directory.  A reader only sees *.wal files, so the directory states a crash can leave
+   are: (a) the old tail ending at ANY byte offset t between the sync point (state right after
+   Truncate) and the end of the data (state after the sync), no new segment; (b) the old tail
+   complete and the new segment present (= w_files (w_cut w), covered by C16_roundtrip).  For (a):
+   whatever t is, the decode loop returns the synced records and a whole prefix of the unsynced ones
+   and stops with EOF or io.ErrUnexpectedEOF — unconditionally (no CRC side condition: nothing is
+   misread, the record that runs past the end of the file is recognised by the size check).
+   Before fix 951f2b4 the size check returned a fatal error and such a log could not be opened
+   nor repaired (KNOWN_FINDINGS: fixed). *)
+Theorem C16_truncated_tail : forall rs_synced rs_unsynced crc0 t,
+  Forall raw_ok (rs_synced ++ rs_unsynced) -> Forall crc_rec_wf (rs_synced ++ rs_unsynced) ->
+  crc0 < lim32 ->
+  let '(rs', bs, _) := encode_recs crc0 (rs_synced ++ rs_unsynced) in
+  let synced := blen (snd (fst (encode_recs crc0 rs_synced))) in
+  synced <= t -> t <= blen bs ->
+  exists m st crc',
+    decode_whole true crc0 (firstn (N.to_nat t) bs) = (firstn m rs', st, frames_len (firstn m rs'), crc')
+    /\ (st = FEnd \/ st = FUnexp)
+    /\ (length rs_synced <= m <= length rs')%nat.
+Proof. exact truncated_tail. Qed.
+Print Assumptions C16_truncated_tail.
+
+Theorem C16_cut_crash_readall : forall segs rs_synced rs_unsynced t s_full,
+  Forall (Forall raw_ok) segs -> Forall (Forall crc_rec_wf) segs ->
+  Forall raw_ok (rs_synced ++ rs_unsynced) -> Forall crc_rec_wf (rs_synced ++ rs_unsynced) ->
+  let '(fs, rsC, c) := closed_files 0 segs in
+  let '(rsT, bs, _) := encode_recs c (rs_synced ++ rs_unsynced) in
+  let synced := blen (snd (fst (encode_recs c rs_synced))) in
+  synced <= t -> t <= blen bs ->
+  interp_all 0 0 rs_init (rsC ++ rsT) = SOk s_full ->
+  exists m s_m,
+    (length rs_synced <= m <= length rsT)%nat
+    /\ interp_all 0 0 rs_init (rsC ++ firstn m rsT) = SOk s_m
+    /\ (read_all true 0 0 (fs ++ [firstn (N.to_nat t) bs]) = result_w true s_m
+        \/ read_all true 0 0 (fs ++ [firstn (N.to_nat t) bs]) = RAErr CUnexpEOF)
+    /\ read_all false 0 0 (fs ++ [firstn (N.to_nat t) bs]) = result_w false s_m.
+Proof. exact truncated_tail_readall. Qed.
+Print Assumptions C16_cut_crash_readall.
 
 (* a torn final record is repairable rather than fatal: Repair (which opens the last segment
    with a fresh decoder; every segment starts with a crcType record) succeeds on every such
